@@ -536,6 +536,34 @@ pub fn run(ctx: &Ctx, _args: &Args) -> i32 {
                 report.count("raw_tree_pattern_sets");
             }
         }
+        // (2c) a legal but *heavy* marker expression (compiled program of a few MiB: far above what ordinary
+        // markers need, still below the regex crate's default limit): the lazy path and the warmed-up path must
+        // both be able to build it. Few calls only: every uncached lookup recompiles the expression.
+        if shard == 0 {
+            let heavy = "(?:[\\p{L}\\p{N}]{1,48})";
+            let patterns: Vec<String> = vec![format!("/h/{heavy}/x"), format!("/h/{heavy}/y"), "/h/plain".to_string()];
+            let haystacks: Vec<String> = ["/h/abc123/x", "/h/\u{e9}t\u{e9}/y", "/h/plain", "/h/a-b/x"].iter().map(|h| h.to_string()).collect();
+            for calls in [vec![(1000u64, None)], vec![(1, Some(0)), (1000, None)], vec![(1000, Some(1))], vec![(2, None), (2, None)]] {
+                report.eval();
+                let mut obs = Obs::default();
+                match guarded(|| check_raw_tree(false, &patterns, &haystacks, &calls, &mut obs)) {
+                    Err(panic) => report.library_panic(&panic),
+                    Ok(Err(m)) => report.violation(
+                        "tree-cache-not-transparent",
+                        m,
+                        serde_json::to_value(Case::RawTree {
+                            ignore_case: false,
+                            patterns: patterns.clone(),
+                            haystacks: haystacks.clone(),
+                            calls: calls.clone(),
+                        })
+                        .unwrap(),
+                    ),
+                    Ok(Ok(())) => report.count("heavy_expression_call_sequences"),
+                }
+                record_obs(&obs, report);
+            }
+        }
         // (3) thread stress on the shared RwLock<LazyRegex>
         for w in 0..stress_worlds {
             if w % jobs != shard {
